@@ -34,10 +34,10 @@ def gen(r, cls):
             v = _neg_entry(r, shape)
         d.update(kind=kind, value=v.tolist() if shape else float(v), via_copy=bool(r.random() < 0.3))
     elif cls == "time":  # G / C (a time that becomes a shift), E / P / X / D (a time that becomes a decay)
-        kind = ["G", "C", "E", "P", "X", "D"][r.integers(6)]
+        kind = ["G", "C", "E", "P", "X", "D", "E_T1", "E_T2", "X_T2"][r.integers(9)]  # *_T1/_T2: a relaxation time
         shape = _rshape(r, 2)
         v = r.uniform(0.1, 5, size=shape) if valid else _neg_entry(r, shape)
-        if valid and shape and r.random() < 0.4:
+        if valid and shape and r.random() < 0.4 and "_T" not in kind:
             v[tuple(int(r.integers(s)) for s in shape)] = 0.0  # a zero entry is fine as long as the shift is not zero overall
             if not np.any(v):
                 v = v + 1.0
@@ -61,8 +61,17 @@ def gen(r, cls):
         dim = int(r.integers(1, 4))
         k = np.round(r.uniform(0.3, 3, size=dim), 3)
         where = ["none", "op", "sm", "simulate"][r.integers(4)] if valid else "none"
-        d.update(k=k.tolist(), grid=where)
-        d["expect"] = "ok" if where != "none" else "raise"
+        # the grid in force: the state matrix's (options of StateMatrix / simulate) if any, else the operator's;
+        # invalid members: no grid anywhere, or a grid of size 0 in force (possibly hiding a valid operator grid)
+        smg = 0.1 if where in ("sm", "simulate") else None
+        opg = 0.1 if where == "op" else None
+        if not valid and r.random() < 0.6:
+            which = ["sm0", "op0", "sm0_op"][r.integers(3)]
+            smg, opg = {"sm0": (0.0, None), "op0": (None, 0.0), "sm0_op": (0.0, 0.1)}[which]
+        if valid and where in ("sm", "simulate") and r.random() < 0.3:
+            opg = 0.0  # an invalid operator grid is hidden by a valid state-matrix grid
+        d.update(k=k.tolist(), grid=where, smg=smg, opg=opg)
+        d["expect"] = "ok" if ((smg is not None and smg > 0) or (smg is None and opg is not None and opg > 0)) else "raise"
     elif cls == "states":
         n = int(r.integers(0, 4))
         lead = [None, (), (2,)][r.integers(3)]
@@ -217,7 +226,8 @@ def gen(r, cls):
         v = v / max(1.0, np.max(np.abs(v)) * 1.0000001)
         if valid:
             if r.random() < 0.5:
-                v[int(r.integers(n))] = [1.0, -1.0, 1j][r.integers(3)]  # boundary |v| = 1 (exactly representable)
+                # boundary |v| = 1, exactly representable or with an arbitrary phase (|exp(i t)| may round to 1 + 1 ulp)
+                v[int(r.integers(n))] = [1.0, -1.0, 1j, np.exp(1j * r.uniform(-3, 3))][r.integers(4)]
         else:
             i = int(r.integers(n))
             v[i] = (1 + float(10.0 ** r.uniform(-6, 2))) * np.exp(1j * r.uniform(-3, 3))
@@ -256,7 +266,9 @@ def run_real(d, epg):
             elif cls == "time":
                 v = np.asarray(d["value"]) if not np.isscalar(d["value"]) else d["value"]
                 op = {"G": lambda: epg.G(v, 5.0), "C": lambda: epg.C(v), "E": lambda: epg.E(v, 100.0, 10.0),
-                      "P": lambda: epg.P(v, 0.1), "X": lambda: epg.X(v, 0.1, axis=np.ndim(v)), "D": lambda: epg.D(v, 1.0)}[d["kind"]]()
+                      "P": lambda: epg.P(v, 0.1), "X": lambda: epg.X(v, 0.1, axis=np.ndim(v)), "D": lambda: epg.D(v, 1.0),
+                      "E_T1": lambda: epg.E(5.0, v, 10.0), "E_T2": lambda: epg.E(5.0, 100.0, v),
+                      "X_T2": lambda: epg.X(5.0, 0.1, T2=v, axis=np.ndim(v))}[d["kind"]]()
                 if np.any(np.asarray(v) != 0):
                     pass
             elif cls == "zero_shift":
@@ -267,11 +279,12 @@ def run_real(d, epg):
             elif cls == "float_no_grid":
                 k = np.asarray(d["k"], dtype=float)
                 g = d["grid"]
-                op = epg.S(k, kgrid=0.1) if g == "op" else epg.S(k)
+                smg, opg = d["smg"], d["opg"]
+                op = epg.S(k, kgrid=opg) if opg is not None else epg.S(k)
                 if g == "simulate":
-                    epg.simulate([epg.T(30, 0), op, epg.ADC], kgrid=0.1)
+                    epg.simulate([epg.T(30, 0), op, epg.ADC], **({"kgrid": smg} if smg is not None else {}))
                 else:
-                    sm = epg.StateMatrix(kgrid=0.1) if g == "sm" else epg.StateMatrix()
+                    sm = epg.StateMatrix(kgrid=smg) if smg is not None else epg.StateMatrix()
                     if d["reuse"]:
                         op(epg.T(30, 0)(epg.StateMatrix(kgrid=0.1)))
                     op(epg.T(30, 0)(sm))
